@@ -120,12 +120,13 @@ Qed.
 Lemma node_op_shape now nd op :
   Forall port_shape (n_ports nd) -> Forall port_shape (n_ports (fst (node_op now nd op))).
 Proof.
-  intros H. destruct op as [k|i u|i|i ltp|s|n]; cbn [node_op fst n_ports].
+  intros H. destruct op as [k|i u|i|i ltp|s|n|b]; cbn [node_op fst n_ports].
   - rewrite map_map. induction H; cbn [map]; constructor; auto. now apply port_data_shape.
   - apply upd_nth_forall; [|exact H]. intros p Hp. destruct (np_en p && _)%bool; exact Hp.
   - apply upd_nth_forall; [|exact H]. intros p Hp. exact Hp.
   - apply upd_nth_forall; [|exact H]. intros p Hp. exact Hp.
   - induction H; cbn [map]; constructor; auto.
+  - exact H.
   - exact H.
 Qed.
 
